@@ -319,4 +319,15 @@ def expand : Nat → List Char → List String → List Mich → Bool → M Mich
 def expandMacro (prim : List Char) (annots : List String) (args : List Mich) : M Mich :=
   expand (prim.length + 1) prim annots args false
 
+/-- the name is not a key of `prim_tags`, and `expand_macro` accepts it without annotations for some number (0, 1 or 2)
+of code arguments -/
+def acceptsName (prim : List Char) : Bool :=
+  match primTags with
+  | none => false
+  | some tags =>
+    !tags.contains prim && [0, 1, 2].any fun k =>
+      match expandMacro prim [] (List.replicate k (.seq [])) with
+      | .ok _ => true
+      | .error _ => false
+
 end Impl.Macros
